@@ -272,15 +272,23 @@ def mk_lap_sample(cls, part=None):
             rz = lambda q: C.as_real(ratio.at(q))  # noqa: E731
             pq = lambda q: z3.Select(data, C.as_int(idx.at(q)))  # noqa: E731
             inb = lambda q: z3.And(q >= 0, q < bs.z)  # noqa: E731
-            cs2 = E.st.ghost["cumsums"][1]  # cumulative sum of the sampled priorities
-            cumsum_monotone(E, cs2, name="importance.sum_monotone")
-            E.oblige("importance.sum_of_sampled_priorities_positive", Sym(cs2.cs(bs.z - 1) > 0), using=["cumsum.step", "importance.sum_monotone", "PWF", "sample.interval_law"])
             U = ["max.", "importance.", "PWF", "sample.interval_law"]
-            mxn = [nd for nd in E.st.sums if nd.kind == "max"][-1]  # max over the un-normalised weights
-            wq = lambda q: mxn.body(q)  # noqa: E731
-            E.st.oblige_forall("importance.lemma.weights_positive", [INT], lambda q: z3.Implies(inb(q), wq(q) > 0), hint="q", using=U)
-            E.st.oblige_forall("importance.lemma.weights_ordered_by_priority", [INT, INT], lambda q, r: z3.Implies(z3.And(inb(q), inb(r), pq(q) <= pq(r)), wq(q) >= wq(r)), hint="q", using=["importance.sum", "PWF", "sample.interval_law"])
-            E.oblige("importance.lemma.max_weight_positive", Sym(mxn.vf() > 0), using=U)
+            # lemma ladder towards the three clauses below; it follows the documented computation (cumulative sum of the
+            # sampled priorities, maximum over the un-normalised weights).  Code that computes the ratio differently
+            # simply gets no lemmas: the clauses themselves are stated on the returned ratio only.
+            cums = E.st.ghost.get("cumsums", [])
+            maxes = [nd for nd in E.st.sums if nd.kind == "max"]
+            if len(cums) >= 2 and maxes:
+                cs2 = cums[1]  # cumulative sum of the sampled priorities
+                cumsum_monotone(E, cs2, name="importance.sum_monotone")
+                E.oblige("importance.sum_of_sampled_priorities_positive", Sym(cs2.cs(bs.z - 1) > 0), using=["cumsum.step", "importance.sum_monotone", "PWF", "sample.interval_law"])
+                mxn = maxes[-1]  # max over the un-normalised weights
+                wq = lambda q: mxn.body(q)  # noqa: E731
+                E.st.oblige_forall("importance.lemma.weights_positive", [INT], lambda q: z3.Implies(inb(q), wq(q) > 0), hint="q", using=U)
+                E.st.oblige_forall("importance.lemma.weights_ordered_by_priority", [INT, INT], lambda q, r: z3.Implies(z3.And(inb(q), inb(r), pq(q) <= pq(r)), wq(q) >= wq(r)), hint="q", using=["importance.sum", "PWF", "sample.interval_law"])
+                E.oblige("importance.lemma.max_weight_positive", Sym(mxn.vf() > 0), using=U)
+            else:
+                E.st.notes.append("importance weights: the code does not follow the documented computation (cumsum / batch max); clauses stated without the lemma ladder")
             E.st.oblige_forall("importance.in_unit_interval", [INT], lambda q: z3.Implies(inb(q), z3.And(rz(q) > 0, rz(q) <= 1)), hint="q", using=U)
             E.oblige("importance.max_is_one", Sym(z3.Exists([z3.Int("qm")], z3.And(inb(z3.Int("qm")), rz(z3.Int("qm")) == 1))), using=U)
             E.st.oblige_forall("importance.non_increasing_in_priority", [INT, INT], lambda q, r: z3.Implies(z3.And(inb(q), inb(r), pq(q) <= pq(r)), rz(q) >= rz(r)), hint="q", using=U)
